@@ -18,7 +18,8 @@
 (* aliases are substituted back one at a time by plain text replacement),  *)
 (* variant "fixed" the repaired one (every alias carries the prefix,       *)
 (* colliding aliases are disambiguated, substitution in a single pass at   *)
-(* word boundaries, longest alias first).                                  *)
+(* word boundaries, longest alias first).  Variant "template": see        *)
+(* RestoreTemplate (names holding backslashes).                            *)
 (***************************************************************************)
 EXTENDS Integers, Sequences, FiniteSets
 CONSTANT Variant
@@ -68,7 +69,7 @@ Aliases(qs, acc) ==
            a0 == IF Variant = "pinned" /\ IsIdent(n) THEN n ELSE Prefix \o Base(n)
            Taken(a) == \E i \in DOMAIN acc : acc[i].alias = a /\ acc[i].orig # n
            RECURSIVE Free(_)
-           Free(a) == IF Variant = "fixed" /\ Taken(a) THEN Free(a \o <<"_">>) ELSE a
+           Free(a) == IF Variant \in {"fixed", "template"} /\ Taken(a) THEN Free(a \o <<"_">>) ELSE a
            a == Free(a0)
            acc2 == IF \E i \in DOMAIN acc : acc[i].alias = a
                    THEN [i \in DOMAIN acc |-> IF acc[i].alias = a THEN [alias |-> a, orig |-> n] ELSE acc[i]]
@@ -96,12 +97,31 @@ RestoreFixed(t, i, tab) ==
        ELSE LET j == CHOOSE j \in hits : \A q \in hits : Len(tab[q].alias) <= Len(tab[j].alias) IN
             Tick(tab[j].orig) \o RestoreFixed(t, i + Len(tab[j].alias), tab)
 
+\* Variant "template" (a design error TLC must refute): the aliases are substituted back one re.sub per alias whose replacement is the
+\* TEXT `name` instead of a function of the match.  re.sub reads a replacement text as a template: a backslash pair is one backslash, a
+\* backslash in front of a letter or a digit is a control character, a group reference or an error - in every case something that is
+\* not the name (written "?" here; the model need not tell those apart) -, in front of anything else it stands for itself.  A quoted
+\* name is DATA: only names without a backslash survive a template.
+RECURSIVE Expand(_)
+Expand(n) == IF n = <<>> THEN <<>>
+             ELSE IF Head(n) # "\\" \/ Len(n) = 1 THEN <<Head(n)>> \o Expand(Tail(n))
+             ELSE IF n[2] = "\\" THEN <<"\\">> \o Expand(Tail(Tail(n)))
+             ELSE IF IsWord(n[2]) /\ n[2] # "_" THEN <<"?">> \o Expand(Tail(Tail(n)))
+             ELSE <<"\\", n[2]>> \o Expand(Tail(Tail(n)))
+RECURSIVE RestoreTemplate(_, _)
+RestoreTemplate(t, tab) ==    \* insertion order, each pass at word boundaries over the result of the previous one
+  IF tab = <<>> THEN t ELSE RestoreTemplate(RestoreFixed(t, 1, <<[alias |-> tab[1].alias, orig |-> Expand(tab[1].orig)]>>), Tail(tab))
+
 Impl(e) ==
   LET tab == Aliases(QNames(e), <<>>)
       sanitized == Render(LAMBDA n : AliasOf(tab, n), e)
-  IN IF Variant = "pinned" THEN RestorePinned(sanitized, tab) ELSE RestoreFixed(sanitized, 1, tab)
+  IN IF Variant = "pinned" THEN RestorePinned(sanitized, tab)
+     ELSE IF Variant = "template" THEN RestoreTemplate(sanitized, tab) ELSE RestoreFixed(sanitized, 1, tab)
 
 Faithful(e) == Impl(e) = NormalForm(e)
+\* what exactly the template restoration gets wrong: the expressions holding a quoted name that a template does not reproduce
+TemplateProof(n) == Expand(n) = n
+TemplateLaw(e) == Variant = "template" => (Faithful(e) <=> \A i \in DOMAIN QNames(e) : TemplateProof(QNames(e)[i]))
 
 (***************************************************************************)
 (* The scanner in front of the three steps (UNQUOTED_BACKTICK_MATCHER and  *)
